@@ -5,7 +5,9 @@ import (
 	"encoding/base64"
 	"fmt"
 	"os"
+	"runtime"
 	"testing"
+	"time"
 
 	"github.com/klauspost/cpuid/v2"
 	simdjson "github.com/minio/simdjson-go"
@@ -471,6 +473,12 @@ func schedExec(r *Run, bound int, pol *pipePolicy, polName string, body func(new
 				emptySeen++
 			}
 			if len(toks) == 0 {
+				// the body may be in a (fake-clock) sleep to let stragglers settle: advance time once before judging
+				time.Sleep(5 * time.Millisecond)
+				syncWait()
+				if callerDone || len(s.Snapshot()) > 0 {
+					continue
+				}
 				stuck = true
 				r.violate("M-term", "deadlock", fmt.Sprintf("no goroutine can proceed and the call has not returned (step %d, sent %d, received %d, chan %d, policy %s)", steps, mon.sent, mon.recv, chanLen, polName))
 				return
@@ -763,4 +771,47 @@ func b64(b []byte) string {
 		return fmt.Sprintf("(%d bytes, fnv %x; regenerated from the tape)", len(b), hashBytes(b))
 	}
 	return base64.StdEncoding.EncodeToString(b)
+}
+
+// RunPipeRace is the -race sub-mode of C07: the same drawn documents parsed free-running (no hook parks)
+// with a drawn GOMAXPROCS, so that the race detector judges the memory the ring monitors do not model.
+// Outcomes are still compared with the reference model.
+func RunPipeRace(r *Run) {
+	c := r.C
+	kernelSwitching = false
+	defer func() { kernelSwitching = true }()
+	procs := []int{2, 3, 4, 8, 16}[c.Intn("gomaxprocs", 5)]
+	old := runtime.GOMAXPROCS(procs)
+	defer runtime.GOMAXPROCS(old)
+	var prev *simdjson.ParsedJson
+	n := 1 + c.Intn("ncalls", 3)
+	for i := 0; i < n && !r.failed(); i++ {
+		cfg := drawCfg(c, true)
+		cfg.AVX512 = hostAVX512
+		doc, desc := genPipeDoc(r, cfg.ND)
+		ref := refFor(doc, cfg.ND)
+		var o parseOutcome
+		err := safely(func() error {
+			var ru *simdjson.ParsedJson
+			if c.Intn("reuse", 2) == 1 {
+				ru = prev
+			}
+			pj, perr := doParse(append([]byte(nil), doc...), ru, cfg)
+			o = outcomeOf(pj, perr)
+			return nil
+		})
+		if wp, ok := err.(*WalkPanic); ok {
+			o.panicV = wp
+		}
+		judgeOutcome(r, doc, cfg, o, ref, fmt.Sprintf("free-running parse #%d under -race (%s, GOMAXPROCS %d)", i, cfg, procs), len(doc) <= 1<<17)
+		if o.ok {
+			prev = o.pj
+		}
+		r.Res.Evals++
+		r.Res.Sample[fmt.Sprintf("doc%d", i)] = desc
+		r.fp.u64(hashBytes(doc))
+		if len(doc) > 8<<10 {
+			r.Res.NonTrivial = true
+		}
+	}
 }
